@@ -17,13 +17,16 @@ class Contract:
                  raises=None, raises_ensures=None, modifies=(), loops=None, inline=False,
                  trusted=False, prop=None, closure=None, note="", param_names=None,
                  allow_any_raise=False, replay=None, cases=None, ghost_params=None, frame=None,
-                 decreases=None, raise_modifies=()):
+                 decreases=None, raise_modifies=(), assumes=()):
         self.key = key
         self.params = dict(params or {})
         self.self_model = self_model
         self.returns = returns
         self.requires = [self._p(x) for x in requires]
         self.requires_src = list(requires)
+        # environmental assumptions: assumed when the body is verified, NOT obliged at call sites
+        self.assumes = [self._p(x) for x in assumes]
+        self.assumes_src = list(assumes)
         self.ensures = [self._p(x) for x in ensures]
         self.ensures_src = list(ensures)
         self.raises = {k: self._p(v) for k, v in (raises or {}).items()}
